@@ -35,6 +35,9 @@ def _startup_scripts():
         "failed": [["recv"], ["sleep", 0.15], ["send", {"type": "lifespan.startup.failed", "message": "nope"}]],
         "failed_keeps_running": [["recv"], ["sleep", 0.15], ["try_send", {"type": "lifespan.startup.failed", "message": "nope"}], ["sleep", 1.0]],
         "failed_then_returns": [["recv"], ["sleep", 0.15], ["try_send", {"type": "lifespan.startup.failed", "message": "nope"}], ["return"]],
+        # ... says it has failed and then leaves with an exception of another kind; also at once, before it ever waits for anything
+        "failed_then_raises": [["recv"], ["sleep", 0.15], ["try_send", {"type": "lifespan.startup.failed", "message": "nope"}], ["raise", "Exception"]],
+        "failed_at_once_then_raises": [["try_send", {"type": "lifespan.startup.failed", "message": "nope"}], ["raise", "Exception"]],
         "failed_nomsg_keeps_running": [["recv"], ["sleep", 0.15], ["try_send", {"type": "lifespan.startup.failed"}], ["sleep", 1.0]],
         "failed_emptymsg_keeps_running": [["recv"], ["sleep", 0.15], ["try_send", {"type": "lifespan.startup.failed", "message": ""}], ["sleep", 1.0]],
         "raise_before_receive": [["sleep", 0.15], ["raise", "Exception"]],
@@ -74,6 +77,9 @@ def gen(rng, tier):
                     if tier == "quick" and activity == "none" and name not in ("complete", "failed"):
                         continue
                     yield {"family": "startup.%s.%s" % (name, activity), "backend": be, "phase": "startup", "script": name, "activity": activity, "rep": rep}
+            # an application that has left the lifespan scope without a word (as one that ignores it does), a queue that holds one message:
+            # nothing is wrong - start-up, serving and shutdown go through, serve() returns
+            yield {"family": "startup.return_immediately.queue1", "backend": be, "phase": "startup", "script": "return_immediately", "activity": "hammer", "rep": rep, "queue1": True}
             for name in _shutdown_scripts():
                 for activity in ("inflight", "idle_conn", "none", "stuck"):
                     if tier == "quick" and activity == "none" and name != "complete":
@@ -227,6 +233,8 @@ def run_one(case, tally):
         cfg["max_app_queue_size"] = 0
     if case["script"] == "shutdown_queue_full":
         cfg["max_app_queue_size"] = 1
+    if case.get("queue1"):
+        cfg["max_app_queue_size"] = 1
     h = ServeHarness(be, cfg, apps)
     served = []
     try:
@@ -328,7 +336,7 @@ def run_one(case, tally):
         tally.clause("order")
         early = [e for e in accepts + servers + http_starts if gate is None or e[0] < gate]
         must_abort = script in ("failed", "failed_keeps_running", "failed_then_returns", "failed_nomsg_keeps_running", "failed_emptymsg_keeps_running", "hang",
-                                "hang_no_receive")
+                                "hang_no_receive", "failed_then_raises", "failed_at_once_then_raises")
         if script in ("hang", "hang_no_receive") and not finished:
             # start-up timeout 0.6 s; the observation window (1.6 s of probing + 6 s) is more than ten times that
             findings.append({"clause": "failure-aborts", "sig": "C14.failure/startup-timeout-not-enforced/%s" % be, "backend": be,
@@ -353,7 +361,10 @@ def run_one(case, tally):
         elif script in ("return_immediately", "return_after_receive"):
             # the statement does not say whether serving starts; an internal error of the worker is not an answer either way
             tally.clause("return-early-no-crash")
-            if isinstance(h.result, tuple) and "LifespanFailureError" not in h.result[1] and "LifespanTimeoutError" not in h.result[1]:
+            if case.get("queue1") and isinstance(h.result, tuple):
+                findings.append({"clause": "order", "sig": "C14.return-early/serve-raised/%s" % be, "backend": be,
+                                 "detail": "lifespan application returned at once (max_app_queue_size 1): serve() ended with %s" % h.result[1].strip().splitlines()[-1][:200]})
+            elif isinstance(h.result, tuple) and "LifespanFailureError" not in h.result[1] and "LifespanTimeoutError" not in h.result[1]:
                 findings.append({"clause": "order", "sig": "C14.return-early/worker-crashed/%s" % be, "backend": be,
                                  "detail": "lifespan application returned without completing start-up (%s); serve() raised %s" % (
                                      script, h.result[1].strip().splitlines()[-1][:200])})
